@@ -13,9 +13,18 @@ use refmodel::layout::{encode, put, Kind, ENCS};
 use serde_json::{json, Value};
 use std::time::Instant;
 
+/// set by C06: the same structures are then also required to make no heap allocation
+pub static ZERO_ALLOC_MODE: std::sync::atomic::AtomicBool = std::sync::atomic::AtomicBool::new(false);
+
 fn timed<T>(out: &mut Outcome, what: &str, f: impl FnOnce() -> T) -> Option<T> {
     let t0 = Instant::now();
+    crate::alloc::reset_stats();
     let r = subject(f);
+    let st = crate::alloc::stats();
+    if ZERO_ALLOC_MODE.load(std::sync::atomic::Ordering::Relaxed) && st.calls > 0 && r.is_ok() {
+        out.violate(format!("alloc:{what}"), format!("{} heap allocation call(s), largest {} bytes", st.calls, st.max_req));
+    }
+    out.alloc_calls += st.calls;
     let us = t0.elapsed().as_micros() as u64;
     out.transitions += 1;
     let prev = out.extra.get("max_call_micros").and_then(|v| v.as_u64()).unwrap_or(0);
